@@ -9,6 +9,7 @@ pub mod e1run;
 pub mod e3;
 pub mod report;
 pub mod checks;
+pub mod cms;
 
 fn main() {
     let args: Vec<String> = std::env::args().collect();
@@ -60,6 +61,7 @@ fn main() {
                 "C10" => checks::pubd::run_c10(&tier, &args),
                 "C11" => checks::pubd::run_c11(&tier, &args),
                 "C17" => checks::c17::run(&tier, &args),
+                "C12" => checks::c12::run(&tier, &args),
                 _ => { eprintln!("unknown property {id}"); 2 }
             };
             std::process::exit(code);
